@@ -22,7 +22,8 @@ RULE = ("corpus-derived structures (segments / balls of the reference proteins, 
         "(for --protonate-all: it added >= 1 hydrogen); distinct by hash of (input, edited input, options).")
 ASSUMPTIONS = [
     "END records are only appended at the end of the file; blank serial fields are not generated (malformed per C19)",
-    "open finding F16 (--protonate-all next to incomplete residues) excluded by signature",
+    "open findings F16 (--protonate-all next to incomplete residues) and F19 (COO-ARG angle partner taken from a "
+    "bond list) excluded by signature",
     "keep-protons clause: skipped (counted as 'h-ambiguous') when a constructed hydrogen lies within 1.5 A of a heavy "
     "atom other than its parent, because bond perception then legitimately differs",
 ]
@@ -255,12 +256,30 @@ def check_case(case):
         v = [{"clause": "keep-protons-round-trip", "detail": common.fmt_diffs(diffs)}] if diffs else []
         if case.get("all_hydrogens"):
             for x in v:
-                x["sig"] = incomplete_sig(base, [d["key"] for d in diffs])
+                x["sig"] = incomplete_sig(base, [d["key"] for d in diffs]) or coo_arg_sig(ra, rb, diffs, km)
         stats = common.interaction_stats(ra)
         return v, {"nontrivial": nh > 0 and stats["with_dets"] >= 1,
                    "labels": list(case.get("labels", [])) + ["keep-protons" + ("-all" if case.get("all_hydrogens")
                                                                                  else "")]}
     raise ValueError(kind)
+
+
+def coo_arg_sig(ra, rb, diffs, keymap):
+    """'coo-arg-bond-order' if every differing group is a COO or ARG group with a side-chain determinant towards a
+    group of the other type (open finding F19)."""
+    if not diffs:
+        return None
+    for d in diffs:
+        c = d["conf"]
+        ga = next((g for g in ra["confs"].get(c, {"groups": []})["groups"]
+                   if g["key"] == d["key"] and g["type"] in ("COO", "ARG")), None)
+        if ga is None:
+            return None
+        other = "ARG" if ga["type"] == "COO" else "COO"
+        partners = {g["key"]: g for g in ra["confs"][c]["groups"] if g["type"] == other}
+        if not any(pk in partners for pk, _l, _v in ga["dets"]["sidechain"]):
+            return None
+    return "coo-arg-bond-order"
 
 
 def incomplete_sig(text, keys):
